@@ -170,7 +170,7 @@ fn sender_cases(run: &mut Run, rng: &mut Rng, thorough: bool) {
                     let after = ep.sctp.verif_sent_queue();
                     let newc = no - s.outbound_queue.len();
                     // oracle: with the window closed nothing new leaves
-                    let fl_after_rex: usize = fl + q.iter().filter(|r| r.needs_retransmit && !r.in_flight).map(|r| r.len).sum::<usize>();
+                    let fl_after_rex: usize = fl + q.iter().filter(|r| r.needs_retransmit && !r.acked && !r.in_flight).map(|r| r.len).sum::<usize>();   // (a gap-acked record is not retransmitted: 5ac86b5)
                     if (rwnd as usize) <= fl_after_rex && newc > 0 { run.fail("window:new-data-with-no-available-window", &format!("tx rwnd={rwnd} flight={fl_after_rex}"), &format!("{newc} new chunks")); }
                     if newc > 0 { run.count("tx_new_data"); }
                     if s.outbound_queue.len() > 0 { run.count("tx_window_limited"); }
@@ -349,6 +349,10 @@ pub fn txw_lines(side: usize, c: &Case, o: &Outcome) -> (String, String, Vec<(St
                                     format!("{who}: {outstanding} unacknowledged bytes on the wire after new TSN {tsn}, newest advertised window {}", best.1)));
                             }
                         } else { rexmits += 1; }
+                        if !is_new && v.len() > 12 && unacked.iter().any(|e| e.0 == tsn && e.2) {
+                            if viol.is_none() { viol = Some(format!("rexmit-after-gap-ack:{tsn}@{idx}")); }
+                            fails.push(("rexmit:data-after-covering-gap-ack".to_string(), format!("{who}: TSN {tsn} sent again with user data after a SACK whose gap block covers it was processed")));
+                        }
                         if let Some(ca) = best.0 { if !tsn_gt(tsn, ca) {
                             if viol.is_none() { viol = Some(format!("rexmit-after-sack:{tsn}@{idx}")); }
                             fails.push(("rexmit:after-covering-sack".to_string(), format!("{who}: TSN {tsn} sent again after a SACK with cumulative TSN {ca} was processed")));
@@ -499,8 +503,106 @@ fn emit_run(run: &mut Run, c: &Case, o: &Outcome, replay: bool) {
     for (k, d) in crate::props::c01::oracle(c, o) { run.fail(&format!("c01:{k}"), &text, &d); if replay { println!("ORACLE-FAIL c01:{k} {d}"); } }
 }
 
+// ------------------------------------------------------------------------------------------
+// (c) directed interleaving on the real sender: DATA sent, the retransmission timer (or the tail-loss probe) marks
+// records for retransmission, a SACK whose gap blocks cover some of the marked records is processed BEFORE the
+// retransmission pass runs (in the run loop: `timer_notify` and the incoming SACK ready in the same iteration, e.g. a
+// SACK held back for about one RTO while an earlier TSN is lost), then `transmit()` — which `handle_sack` ends with.
+
+/// `t3gap <base> <n> <len> <mode: t3|tlp> <cum offset from base, -1 = nothing> <gaps a-b,…|->`
+pub struct T3Gap { pub base: u32, pub n: usize, pub len: usize, pub tlp: bool, pub cum_off: i64, pub gaps: Vec<(u16, u16)> }
+impl T3Gap {
+    pub fn text(&self) -> String { format!("{} {} {} {} {} {}", self.base, self.n, self.len, if self.tlp { "tlp" } else { "t3" }, self.cum_off, show_gaps(&self.gaps)) }
+    pub fn parse(t: &str) -> Option<T3Gap> {
+        let f: Vec<&str> = t.split_whitespace().collect();
+        if f.len() != 6 { return None; }
+        let gaps = if f[5] == "-" { vec![] } else { f[5].split(',').filter_map(|g| { let (a, b) = g.split_once('-')?; Some((a.parse().ok()?, b.parse().ok()?)) }).collect() };
+        Some(T3Gap { base: f[0].parse().ok()?, n: f[1].parse().ok()?, len: f[2].parse().ok()?, tlp: f[3] == "tlp", cum_off: f[4].parse().ok()?, gaps })
+    }
+}
+
+/// Oracle on everything the sender puts on the wire after the SACK was delivered to it:
+/// no DATA chunk with user data leaves for a TSN that this SACK (cumulative TSN or a gap block) covers;
+/// and nothing malformed leaves either (a datagram without a chunk, a DATA chunk shorter than its header).
+pub async fn emit_t3gap(run: &mut Run, g: &T3Gap, port: u16, verbose: bool) {
+    let mut cfg = EpCfg::default();
+    cfg.rto_initial_ms = 20; cfg.rto_min_ms = 10; cfg.rto_max_ms = 80; cfg.max_burst = 16;
+    let mut ep = Endpoint::new(port, port + 1, true, &cfg, &[]).await;
+    for _ in 0..20 { tokio::task::yield_now().await; }
+    ep.sctp.verif_set_state(rustrtc::transports::sctp::SctpState::Connected);
+    let out: Vec<(u16, u32, u16, u8, usize, Option<u16>, bool)> = (0..g.n).map(|j| (1u16, 53u32, j as u16, 3u8, g.len, None, false)).collect();
+    ep.sctp.verif_load_sender(&[], &out, 100_000, 0, 100_000, g.base, false);
+    ep.sctp.verif_set_sack_history(g.base.wrapping_sub(1), 0);
+    let _ = ep.sctp.verif_transmit().await;
+    let mut first: Vec<u32> = vec![];
+    while let Ok(p) = ep.out_rx.try_recv() { for (t, _f, v) in chunks_of(&p) { if t == 0 && v.len() >= 12 { first.push(u32::from_be_bytes([v[0], v[1], v[2], v[3]])); } } }
+    let text = format!("t3gap {}", g.text());
+    if first.len() != g.n { run.fail("coverage:t3gap-setup-did-not-send-the-data", &text, &format!("first flight {first:?}")); ep.shutdown(); return; }
+    // the timer: wait out the RTO, mark (no retransmission yet: `handle_timeout` only notifies the run loop)
+    let marked: Vec<u32>;
+    if g.tlp { let _ = ep.sctp.verif_tlp_probe(); } else { tokio::time::sleep(Duration::from_millis(60)).await; let _ = ep.sctp.verif_handle_timeout().await; }
+    marked = ep.sctp.verif_sent_queue().iter().filter(|r| r.needs_retransmit).map(|r| r.tsn).collect();
+    while ep.out_rx.try_recv().is_ok() {}
+    // the SACK, then (inside handle_sack) the retransmission pass
+    let cum = g.base.wrapping_add(g.cum_off as u32);
+    let mut v = Vec::new();
+    v.extend_from_slice(&cum.to_be_bytes()); v.extend_from_slice(&100_000u32.to_be_bytes());
+    v.extend_from_slice(&(g.gaps.len() as u16).to_be_bytes()); v.extend_from_slice(&0u16.to_be_bytes());
+    for (a, b) in &g.gaps { v.extend_from_slice(&a.to_be_bytes()); v.extend_from_slice(&b.to_be_bytes()); }
+    let _ = ep.sctp.verif_handle_sack(Bytes::from(v)).await;
+    let covered = |t: u32| (t.wrapping_sub(cum) as i32) <= 0 || g.gaps.iter().any(|(a, b)| { let o = t.wrapping_sub(cum); *a as u32 <= o && o <= *b as u32 });
+    let mut wire: Vec<String> = vec![];
+    let mut marked_and_covered = 0;
+    for t in &marked { if covered(*t) { marked_and_covered += 1; } }
+    while let Ok(p) = ep.out_rx.try_recv() {
+        let chunks = chunks_of(&p);
+        if chunks.is_empty() {
+            wire.push(format!("empty({})", p.len()));
+            run.fail("wire:datagram-without-chunks", &text, &format!("after the SACK the sender emitted a {}-byte datagram that carries no chunk (retransmission pass on a record whose payload was freed by the gap ack)", p.len()));
+        }
+        for (t, _f, v) in chunks {
+            if t != 0 { wire.push(format!("c{t}")); continue; }
+            if v.len() < 12 { wire.push("short-data".into()); run.fail("wire:data-chunk-shorter-than-its-header", &text, &format!("{} value bytes", v.len())); continue; }
+            let tsn = u32::from_be_bytes([v[0], v[1], v[2], v[3]]);
+            wire.push(format!("D{tsn}:{}", v.len() - 12));
+            if covered(tsn) && v.len() > 12 {
+                run.fail("rexmit:data-after-covering-gap-ack", &text, &format!("TSN {tsn} ({} bytes of user data) was put on the wire again after a SACK covering it (cum {cum}, gaps {}) had been delivered to the sender; marked by the timer: {marked:?}", v.len() - 12, show_gaps(&g.gaps)));
+            }
+        }
+    }
+    if verbose { println!("first flight {first:?}; marked {marked:?}; after the SACK: [{}]", wire.join(" ")); for f in &run.fails { println!("ORACLE-FAIL {} {}", f.signature, f.detail); } }
+    if marked_and_covered > 0 { run.count("t3gap_marked_then_gap_acked"); }
+    run.count("t3gap_cases");
+    ep.shutdown();
+}
+
+fn t3gap_cases(run: &mut Run, thorough: bool) {
+    let rt = tokio::runtime::Builder::new_current_thread().enable_all().build().unwrap();
+    rt.block_on(async {
+        let mut port = 54_000u16;
+        let mut v: Vec<T3Gap> = vec![];
+        // the first chunk is lost, the SACK reports some of the later ones; T3 marks the first RETRANSMIT_BURST records
+        for base in [5000u32, 0xFFFF_FFFE] { for (n, gaps) in [(3usize, vec![(2u16, 3u16)]), (5, vec![(2, 2), (4, 5)]), (6, vec![(3, 4)]), (4, vec![(2, 4)]), (6, vec![(2, 6)])] {
+            v.push(T3Gap { base, n, len: 100, tlp: false, cum_off: -1, gaps: gaps.clone() });
+            if thorough || base == 5000 { v.push(T3Gap { base, n, len: 1172, tlp: false, cum_off: 0, gaps: gaps.iter().map(|(a, b)| (*a, (*b).min(n as u16 - 1))).filter(|(a, b)| a <= b).collect() }); }
+        } }
+        // the tail-loss probe marks the last record; the SACK covers it by a gap block / by the cumulative TSN / not at all
+        for (n, cum_off, gaps) in [(4usize, -1i64, vec![(4u16, 4u16)]), (4, 0, vec![(3, 3)]), (3, 2, vec![]), (4, 1, vec![])] {
+            v.push(T3Gap { base: 700, n, len: 300, tlp: true, cum_off, gaps });
+        }
+        for g in &v { emit_t3gap(run, g, port, false).await; port += 2; }
+    });
+    if run.dist.get("t3gap_marked_then_gap_acked").copied().unwrap_or(0) == 0 { run.fail("coverage:t3gap-never-reached-marked-then-gap-acked", "t3gap", "no directed case had a record marked for retransmission and then covered by the SACK"); }
+}
+
 pub fn run(args: &Args) {
     if let Some(case) = &args.replay {
+        if let Some(rest) = case.strip_prefix("t3gap ") {
+            let mut run = Run::new("c13", &format!("{}/replay", args.out));
+            match T3Gap::parse(rest) { Some(g) => { let rt = tokio::runtime::Builder::new_current_thread().enable_all().build().unwrap(); rt.block_on(emit_t3gap(&mut run, &g, 41_200, true)); }
+                None => println!("cannot parse case: {case}") }
+            return;
+        }
         let Some(c) = parse_case(case) else { println!("cannot parse case: {case}"); return; };
         let o = run_one(&c, 41_000);
         println!("case: {}", case_text(&c));
@@ -514,7 +616,8 @@ pub fn run(args: &Args) {
     func_cases(&mut run, &mut rng, args.tier_thorough);
     sender_cases(&mut run, &mut rng, args.tier_thorough);
     // `handle_sack` as a function (window variable, flight accounting, retransmissions it triggers) on SACK histories
-    crate::props::c01::hsack_cases(&mut run, &mut rng, false);
+    crate::props::c01::hsack_cases(&mut run, &mut rng, args.tier_thorough);
+    t3gap_cases(&mut run, args.tier_thorough);
     let cs = cases(args, &mut rng);
     let nthreads = std::env::var("VERIF_THREADS").ok().and_then(|v| v.parse().ok()).unwrap_or(6usize);
     let next = std::sync::atomic::AtomicUsize::new(0);
